@@ -181,7 +181,7 @@ func (w *World) typeKey(c *Call) string {
 func (w *World) exactKey(c *Call) string {
 	ks := []string{c.Plugin}
 	for _, a := range c.Args {
-		ks = append(ks, a.Ty.Str(""))
+		ks = append(ks, a.Ty.ID())
 	}
 	return strings.Join(ks, "|")
 }
